@@ -60,7 +60,43 @@ def rejection_then_hangup(ctx: Ctx) -> None:
                           f"connect() ended {o['outcome']} {e!r}", {"spec": None, "row": row}, trace=o["trace"])
 
 
+def ble_time_bounds(ctx: Ctx) -> None:
+    """Bluetooth request-response calls against a proxy that never answers: each ends with TimeoutAPIError exactly at its timeout;
+    bluetooth_device_connect at timeout + disconnect_timeout (it first asks the proxy to disconnect and waits for that, bounded too)."""
+    from aioesphomeapi.core import TimeoutAPIError
+    from vf.props import c16
+
+    res = ctx.res
+    idx = 0
+    for name in c16.OPS:
+        if name == "get_services":
+            continue   # documented bound 30 s, same mechanism; covered by C16
+        idx += 1
+        if not ctx.mine(idx):
+            continue
+        o = c16.run_case({"ops": [{"op": name, "addr": c16.A, "handle": 1}], "replies": [], "answer_disconnect": False})
+        if o.get("error"):
+            res.inconclusive.append(f"BLE time bound scenario: {o['error']}")
+            continue
+        rec = o["recs"][0]
+        res.evaluations += 1
+        res.count("baseline/ble-silent-proxy")
+        res.count("oracle_evaluations")
+        res.sigs.add(f"ble-bound/{name}")
+        bound = c16.TIMEOUT + (0.5 if name == "device_connect" else 0.0)
+        dur = None if rec.t_ret is None else rec.t_ret - rec.t_call
+        res.count(f"observed/c09/ble-silent/{name}/{rec.outcome}/{type(rec.exc).__name__ if rec.exc else None}")
+        if not rec.done:
+            res.violation(f"C09/hang/{name}", f"{name} against a silent proxy still pending", {"spec": None, "ble_op": name})
+        elif rec.outcome != "raised" or not isinstance(rec.exc, TimeoutAPIError):
+            res.violation(f"C09/raw-exception/{name}/{type(rec.exc).__name__}", f"{name} against a silent proxy ended {rec.outcome} {rec.exc!r}", {"spec": None, "ble_op": name})
+        elif abs(dur - bound) > 1e-6:
+            res.violation(f"C09/over-bound/{name}" if dur > bound else f"C09/under-bound/{name}", f"{name} against a silent proxy took {dur:.4f}s, documented bound {bound}s "
+                          f"(timeout {c16.TIMEOUT}s" + (", disconnect_timeout 0.5s)" if name == "device_connect" else ")"), {"spec": None, "ble_op": name}, trace=o["trace"][-30:])
+
+
 def shard(ctx: Ctx) -> None:
+    ble_time_bounds(ctx)
     rejection_then_hangup(ctx)
     sweep.standard_sweep(ctx, PROP)
     sweep.same_turn_pairs_sweep(ctx, PROP)
